@@ -22,10 +22,11 @@ import (
 
 type SField struct {
 	Name     string
-	Args     int    // number of `aN: Int` arguments
-	Ret      string // GraphQL type reference
-	Resolver bool   // models.<T>.fields.<f>.resolver: true (root fields are resolvers anyway)
-	File     string // schema file (base name without extension) holding the field
+	Args     int      // number of `aN: Int` arguments
+	Shadow   []string // further arguments `<name>: ShadowIn[!]` (a trailing "!" = non-null) named like a package the resolver template reserves
+	Ret      string   // GraphQL type reference
+	Resolver bool     // models.<T>.fields.<f>.resolver: true (root fields are resolvers anyway)
+	File     string   // schema file (base name without extension) holding the field
 }
 
 type SType struct {
@@ -46,6 +47,7 @@ func (s *Schema) clone() *Schema {
 		nt := &SType{Name: t.Name, File: t.File}
 		for _, f := range t.Fields {
 			cf := *f
+			cf.Shadow = append([]string(nil), f.Shadow...)
 			nt.Fields = append(nt.Fields, &cf)
 		}
 		c.Types = append(c.Types, nt)
@@ -86,6 +88,55 @@ var mangleFieldWords = []string{
 
 // mangling selects how often the wide pools are drawn from (percent); set per case by the worker.
 var manglePct = 0
+
+// Identifiers that SHADOW a package the resolver template reserves speculatively in every resolver file
+// (resolver.gotpl: context fmt io strconv time sync errors bytes gqlparser ast graphql introspection, deleted again
+// by imports.Prune when unused). gqlgen derives the parameter name of a resolver method from the schema argument,
+// so `schedule(time: ShadowIn!)` gives `time ShadowIn` and the user's body reads `time.Zone`: a selector whose base
+// is spelled like the package but is not one. `fmt` is left out of the argument pool: the bodies the harness (and
+// gqlgen's own stub) writes call fmt.Errorf, which a parameter `fmt` would break before any regeneration.
+var shadowArgWords = []string{"time", "errors", "bytes", "sync", "io", "strconv", "ast", "graphql", "gqlparser", "introspection", "context"}
+
+// shadowPct: how often a new field gets such arguments (percent); set per case by the worker.
+var shadowPct = 0
+
+const shadowInput = "ShadowIn"
+
+func (s *Schema) shadowArgs(r *rng.R) []string {
+	if r.Below(100) >= shadowPct {
+		return nil
+	}
+	var out []string
+	n := 1 + r.Below(2)
+	for len(out) < n {
+		w := shadowArgWords[r.Below(len(shadowArgWords))]
+		dup := false
+		for _, x := range out {
+			if strings.TrimSuffix(x, "!") == w {
+				dup = true
+			}
+		}
+		if dup {
+			continue
+		}
+		if r.Below(3) > 0 {
+			w += "!"
+		}
+		out = append(out, w)
+	}
+	return out
+}
+
+func (s *Schema) usesShadow() bool {
+	for _, t := range s.Types {
+		for _, f := range t.Fields {
+			if len(f.Shadow) > 0 {
+				return true
+			}
+		}
+	}
+	return false
+}
 
 func (s *Schema) freshField(r *rng.R, t *SType) string {
 	for {
@@ -171,6 +222,9 @@ func (s *Schema) randRet(r *rng.R) string {
 func (s *Schema) addField(r *rng.R, t *SType, file string) *SField {
 	f := &SField{Name: s.freshField(r, t), Args: r.Below(3), Ret: s.randRet(r), File: file}
 	f.Resolver = isRoot(t.Name) || r.Below(3) > 0
+	if shadowPct > 0 {
+		f.Shadow = s.shadowArgs(r)
+	}
 	t.Fields = append(t.Fields, f)
 	return f
 }
@@ -421,10 +475,17 @@ func (s *Schema) write(dir, pkg, layout string, omitComment bool) error {
 				fmt.Fprintf(&b, "%s %s {\n", kw, t.Name)
 				for _, f := range fs {
 					args := ""
-					if f.Args > 0 {
+					if f.Args > 0 || len(f.Shadow) > 0 {
 						var as []string
 						for i := 0; i < f.Args; i++ {
 							as = append(as, fmt.Sprintf("a%d: Int", i))
+						}
+						for _, a := range f.Shadow {
+							if strings.HasSuffix(a, "!") {
+								as = append(as, strings.TrimSuffix(a, "!")+": "+shadowInput+"!")
+							} else {
+								as = append(as, a+": "+shadowInput)
+							}
 						}
 						args = "(" + strings.Join(as, ", ") + ")"
 					}
@@ -438,6 +499,9 @@ func (s *Schema) write(dir, pkg, layout string, omitComment bool) error {
 			if len(ext) > 0 {
 				emit("extend type", ext)
 			}
+		}
+		if fl == s.Files[0] && s.usesShadow() {
+			fmt.Fprintf(&b, "input %s {\n  zone: String\n  hour: Int\n}\n\n", shadowInput)
 		}
 		if b.Len() == 0 {
 			b.WriteString("# empty\n")
